@@ -50,6 +50,8 @@ struct TLog {
     udp: Vec<(SocketAddr, Vec<u8>)>,
     /// the datagram target answers every datagram a second time, 45 simulated ms later ("late-reply:...")
     late_replies: bool,
+    /// the datagram target never answers
+    silent: bool,
 }
 
 async fn target(log: Arc<Mutex<TLog>>) {
@@ -63,6 +65,9 @@ async fn target(log: Arc<Mutex<TLog>>) {
         loop {
             let Ok((n, from)) = u.recv_from(&mut buf).await else { return };
             ulog.lock().unwrap().udp.push((from, buf[..n].to_vec()));
+            if ulog.lock().unwrap().silent {
+                continue;
+            }
             let mut r = b"reply:".to_vec();
             r.extend_from_slice(&buf[..n.min(32)]);
             let _ = u.send_to(&r, from).await;
@@ -1399,6 +1404,124 @@ pub fn gen_c09_sid(seed: u64, _thorough: bool) -> Plan {
         flows: vec![],
         // (user B numbers its datagrams from a drawn start: just ahead of A's, beyond A's replay window, far beyond it)
         extra: serde_json::json!({ "variant": (seed / 2) % 4, "gap_s": *g.pick(&[0u64, 1, 29, 31, 40, 65]), "sub_seed": g.next(), "pid_b0": *g.pick(&[1000u64, 1000, 9000, 20_000, 1 << 33, u64::MAX - 10_000]) }),
+    }
+}
+
+/// C11, copies that arrive late: a reference client's datagram session (ids 1..k) to a target that answers or stays silent;
+/// `delay_s` simulated seconds later (0.3 .. 29 s: the timestamps are still acceptable) the very same datagrams arrive again,
+/// then a fresh id. No id is relayed twice - whatever the relay did with the session in the quiet time - and the fresh one is.
+pub fn gen_c11_late(seed: u64, _thorough: bool) -> Plan {
+    let mut g = Gen::new(seed, 113);
+    let ciphers: Vec<&str> = SS_CIPHERS.iter().copied().filter(|c| is_2022(c)).collect();
+    let cipher = ciphers[seed as usize % ciphers.len()];
+    let n_users = if supports_eih(cipher) && g.chance(40) { 2 } else { 0 };
+    let mut config = gen_config(&mut g, Proto::Shadowsocks, cipher, Transport::Tcp, n_users);
+    config.server_mode = if g.chance(50) { "udp" } else { "tcp_and_udp" }.into();
+    Plan {
+        property: "C11".into(),
+        scenario: "late-copies".into(),
+        seed,
+        net_seed: g.next(),
+        config,
+        knobs: KnobsPlan::simple(),
+        flows: vec![],
+        extra: serde_json::json!({ "delay_ms": *g.pick(&[300u64, 2_000, 5_000, 9_000, 11_000, 12_000, 15_000, 20_000, 25_000, 28_000]), "silent": g.chance(50), "k": g.range(1, 4), "other_source": g.chance(30), "sub_seed": g.next() }),
+    }
+}
+
+pub fn execute_c11_late(plan: &Plan) -> Outcome {
+    let c = creds(&plan.config);
+    let cell = format!("{}{}", plan.config.family(), if c.user_keys.is_empty() { "" } else { "+users" });
+    let delay_ms = plan.extra["delay_ms"].as_u64().unwrap_or(12_000);
+    let silent = plan.extra["silent"].as_bool().unwrap_or(true);
+    let k = plan.extra["k"].as_u64().unwrap_or(3);
+    let other_source = plan.extra["other_source"].as_bool().unwrap_or(false);
+    let mut g = Gen::new(plan.extra["sub_seed"].as_u64().unwrap_or(1), 114);
+    let out = rt::run_sim(plan.seed, plan.net_seed, plan.knobs.to_knobs(), || async {
+        let mut findings: Vec<(String, String)> = Vec::new();
+        let log = Arc::new(Mutex::new(TLog { silent, ..Default::default() }));
+        let _t = spawn_scoped(target(log.clone()));
+        tokio::task::yield_now().await;
+        let server = start_server_json(plan.config.server_json());
+        tokio::task::yield_now().await;
+        if !settle(|| udp_bound(SERVER_PORT)).await {
+            return (Some(format!("server did not come up (finished={})", server.is_finished())), findings);
+        }
+        let addr = Addr::V4(T_IP, T_PORT);
+        let a = UdpSocket::bind(SocketAddr::new(IpAddr::V4(Ipv4Addr::LOCALHOST), 0)).await.unwrap();
+        let a2 = UdpSocket::bind(SocketAddr::new(IpAddr::V4(Ipv4Addr::LOCALHOST), 0)).await.unwrap();
+        let sid: u64 = g.next();
+        let mut mk = |g: &mut Gen, pid: u64, payload: &[u8]| {
+            let body = refimpl::ss2022::UdpBody { session_id: sid, packet_id: pid, stream_type: 0, timestamp: unix_now(), client_session_id: None, padding: 0, addr: addr.clone(), payload: payload.to_vec() };
+            if refimpl::ss2022::is_aes(&c.cipher) {
+                refimpl::ss2022::udp_packet_aes(&c.cipher, &c.client_keys, &body)
+            } else {
+                let mut n24 = [0u8; 24];
+                g.fill(&mut n24);
+                refimpl::ss2022::udp_packet_chacha(&c.cipher, &c.psk, &n24, &body)
+            }
+        };
+        let mut wires = Vec::new();
+        for pid in 1..=k {
+            let w = mk(&mut g, pid, format!("late-copy-session-datagram-{pid}").as_bytes());
+            let _ = a.send_to(&w, server_addr()).await;
+            wires.push(w);
+            tokio::time::sleep(Duration::from_millis(20)).await;
+        }
+        tokio::time::sleep(Duration::from_millis(delay_ms)).await;
+        for w in &wires {
+            let _ = if other_source { a2.send_to(w, server_addr()).await } else { a.send_to(w, server_addr()).await };
+            tokio::time::sleep(Duration::from_millis(20)).await;
+        }
+        let fresh = mk(&mut g, k + 1, b"late-copy-session-fresh-datagram");
+        let _ = a.send_to(&fresh, server_addr()).await;
+        tokio::time::sleep(Duration::from_millis(300)).await;
+        let at_target: Vec<Vec<u8>> = log.lock().unwrap().udp.iter().map(|(_, d)| d.clone()).collect();
+        for pid in 1..=k {
+            let p = format!("late-copy-session-datagram-{pid}").into_bytes();
+            let n = at_target.iter().filter(|d| **d == p).count();
+            if n > 1 {
+                findings.push(("packet-id-accepted-twice-after-a-quiet-time".into(), format!("packet id {pid} reached the target {n} times: the copy arrived {delay_ms} ms after the original ({}; target {}; {k} datagrams in the session)", if other_source { "from another source address" } else { "from the same address" }, if silent { "never answers" } else { "answers" })));
+                break;
+            }
+            if n == 0 {
+                findings.push(("datagram-lost".into(), format!("packet id {pid} never reached the target")));
+                break;
+            }
+        }
+        if !at_target.iter().any(|d| d == b"late-copy-session-fresh-datagram") {
+            findings.push(("fresh-id-refused-after-copies".into(), format!("after the late copies a fresh packet id ({}) was not relayed (delay {delay_ms} ms, target {})", k + 1, if silent { "never answers" } else { "answers" })));
+        }
+        (None, findings)
+    });
+    let (startup, findings) = out.result.clone();
+    let mut v = Vec::new();
+    if let Some(e) = startup {
+        v.push(Violation::new("C11", format!("C11/late-copies-startup/{cell}"), e));
+    }
+    for (oracle, detail) in &findings {
+        v.push(Violation::new("C11", format!("C11/{oracle}/{cell}"), detail.clone()));
+    }
+    for p in &out.panics {
+        v.push(Violation::new("C11", format!("C11/panic/{cell}/{}", p.frame), format!("panic in node {}: {} at {}", p.node, p.message, p.location)));
+    }
+    let mut probes = BTreeMap::new();
+    probes.insert(format!("late_copies_after_{}_s", delay_ms / 1000), 1);
+    probes.insert(format!("late_copies_target_{}", if silent { "silent" } else { "answering" }), 1);
+    Outcome {
+        violations: v,
+        ev_hash: out.world.ev_hash,
+        ev_count: out.world.ev_count,
+        poll_hash: out.poll_hash,
+        polls: out.polls,
+        sim_ns: out.sim_ns,
+        stats: crate::report::world_stats(&out.world),
+        nontrivial: true,
+        case_hash: out.poll_hash ^ plan.seed.wrapping_mul(0x9E3779B97F4A7C15),
+        probes,
+        panics: out.panics,
+        extra_evaluations: 0,
+        extra_cases: Vec::new(),
     }
 }
 
